@@ -16,6 +16,14 @@ C (oracle): constructive certificates, independent of coxeter:
   * spheropolyhedron : the exact point-polytope distance (closest point on the hull's triangles)
                        with a near certificate (explicit weights) or a far certificate (variational
                        inequality of the projection), both verified exactly over Q.
+T (theorem hypotheses, evaluated exactly over Q by the driver on the implementation's own data):
+  * facet certificate (`spec.in3.facets`, Props `cp_mem_hull_of_inside_cert` + `cp_planeDist_le_of_mem_hull`):
+    ConvexPolyhedron's `_equations`, `vertices`, `faces` (fan-triangulated) form a closed surface whose facet
+    planes fit its vertices => {all plane distances < -m} is inside conv(vertices) is inside {all <= eta};
+  * signed ray-crossing number (`spec.in3.ray`, Props `poly_inside_iff_ray_checked`): the polytri triangles of a
+    Polyhedron form a closed surface => the real-arithmetic winding test accepts p iff the signed number of
+    triangles crossed by a ray from p is non-zero (counted exactly, any mesh, no knowledge of the solid needed);
+  * cone tetrahedralisation (`spec.in3.tetcount`, Props `poly_inside_iff_checked`) on convex meshes.
 """
 import itertools
 import warnings
@@ -420,6 +428,141 @@ def solid_oracle(solid, M):
     return inside, bdist
 
 
+
+# --------------------------------------------------------------------------- theorem-hypothesis certificates
+
+
+def dyadic_weights(n):
+    """n non-negative doubles that sum to 1 exactly (over Q)."""
+    k = int(np.ceil(np.log2(max(n, 1)))) + 1
+    w = np.full(n, 2.0 ** -k)
+    w[0] += 1.0 - n * 2.0 ** -k
+    return w
+
+
+def facet_certificate(ctx, cp, P, size, case):
+    """Run `facetCert` (hypothesis of cp_mem_hull_of_inside_cert) exactly over Q on the implementation's own
+    equations / vertices / faces.  Returns (ok, eta, R, o) ; eta = exact max plane value over all vertices."""
+    v = _f(cp.vertices)
+    eqs = _f(cp._equations)
+    ws = dyadic_weights(len(v))
+    o = ws @ v
+    R = float(max(np.max(np.abs(P - o)) if len(P) else 0.0, size) * 1.001)
+    F = []
+    for k, f in enumerate(cp.faces):
+        f = [int(i) for i in f]
+        for i in range(1, len(f) - 1):
+            F.append([v[f[0]], v[f[i]], v[f[i + 1]], I(k)])
+    m = MARGIN * size
+    r = ctx.driver.Q("spec.in3.facets", L(list(v)), L([e for e in eqs]), L([float(x) for x in ws]), L(F), float(m), R)
+    ok, wok, closed, bad = bool(r[0]), bool(r[1]), bool(r[2]), int(r[3])
+    eta = float(r[7])
+    ctx.count("cert:facets:" + ("ok" if ok else "failed"))
+    if not ok:
+        ctx.contract_failures.append({"contract": "facet-completeness certificate (closed face structure, planes fit vertices)",
+                                      "got": {"weights": wok, "closed": closed, "bad_triangles": bad,
+                                              "kind": case.get("info", {}).get("kind")}})
+    return ok, eta, R, np.array([float(x) for x in r[4:7]])
+
+
+def interior_apex(rng, o, eqs):
+    """a generic point strictly inside all planes: o moved by less than a third of its smallest slack"""
+    slack = float(np.min(-(eqs[:, :3] @ o + eqs[:, 3])))
+    u = rng.normal(size=3)
+    return o + u / np.linalg.norm(u) * 0.3 * max(slack, 0.0)
+
+
+def tie_or_near(tris, p, size, bd):
+    d = np.abs(tris.reshape(-1, 3) - p)
+    return bool(np.any((d > 0) & (d < MARGIN * size))) or abs(bd) < MARGIN * size
+
+
+def ray_certificate(ctx, cls_sig, tris, P, res, expect, bdist, size, case, labels, rng, convex_apex=None):
+    """Signed ray-crossing number of the implementation's own polytri triangles, counted exactly over Q
+    (Props poly_inside_iff_ray_checked / poly_inside_iff_checked).  Compared with the implementation's verdict and
+    with the generator-side oracle."""
+    n = len(P)
+    cand = np.nonzero(expect >= 0)[0]
+    if len(cand) == 0 or rng.random() * 100 >= ctx.budget(100, 45):
+        return
+    nq = ctx.budget(16, 20)
+    pri = sorted(cand, key=lambda i: (labels[i] not in ("lattice", "shared-coordinate"), rng.random()))[:nq]
+    verts = tris.reshape(-1, 3)
+    if convex_apex is not None:
+        # convex mesh: cone tetrahedra from an interior apex, all positively oriented: inTets == membership
+        tets = [[convex_apex, t[0], t[1], t[2]] for t in tris]
+        r = ctx.driver.Q("spec.in3.tetcount", L(list(tris)), L(tets), L([P[i] for i in pri]))
+        closed, orient_ok = bool(r[0]), bool(r[1])
+        off = [bool(x) for x in r[2::3]]
+        cnt = [int(x) for x in r[3::3]]
+        intets = [bool(x) for x in r[4::3]]
+        ctx.count("cert:tetcount:" + ("ok" if closed and orient_ok else "failed"))
+        if not (closed and orient_ok):
+            ctx.contract_failures.append({"contract": "convex mesh: polytri surface = boundary of the cone from an interior point, "
+                                          "all cones positively oriented", "got": [closed, orient_ok]})
+            return
+        verdict = intets
+    else:
+        o = verts.mean(axis=0) + rng.normal(size=3) * 0.37 * size
+        r = ctx.driver.Q("spec.in3.ray", L(list(tris)), o, L([P[i] for i in pri]))
+        closed = bool(r[0])
+        off = [bool(x) for x in r[1::2]]
+        cnt = [int(x) for x in r[2::2]]
+        ctx.count("cert:ray:" + ("closed" if closed else "not-closed"))
+        if not closed:
+            ctx.contract_failures.append({"contract": "polytri surface triangulation is a closed oriented surface",
+                                          "got": case.get("solid", {}).get("kind")})
+            return
+        verdict = [c != 0 for c in cnt]
+    for j, i in enumerate(pri):
+        if not off[j]:
+            ctx.count("cert:ray:point-not-generic")
+            continue
+        ctx.count("cert:ray:points")
+        if abs(cnt[j]) > 1:
+            ctx.count("cert:ray:|winding|>1")
+        if verdict[j] != bool(expect[i]):
+            # exact theorem-side count vs generator-side oracle: do not judge, record
+            ctx.count("oracle:ray-vs-generator-disagree")
+            ctx.contract_failures.append({"contract": "generator-side membership == exact signed ray-crossing number != 0",
+                                          "got": [P[i].tolist(), cnt[j], int(expect[i])]})
+            continue
+        if verdict[j] != bool(res[i]) and not tie_or_near(tris, P[i], size, bdist[i]):
+            # the theorem is about real arithmetic: if the Float model (= the code, line by line) reproduces the
+            # implementation's verdict, the difference is a rounding effect at a near-tie, not judged here
+            fm = ctx.driver.F("in3.poly", L(list(tris)), L([P[i]]))
+            if bool(fm[0]) == bool(res[i]):
+                ctx.count("cert:ray:float-vs-real-tie")
+                ctx.skipped_near_boundary += 1
+                continue
+            ctx.fail(cls_sig + ":ray-crossing-number",
+                     "verdict differs from the exact signed ray-crossing number of the surface triangulation (theorem "
+                     "poly_inside_iff_ray: the real-arithmetic winding test accepts p iff that number is non-zero)",
+                     slim(case, [int(i)]), [int(i), labels[i], cnt[j], bool(res[i])])
+            return
+
+
+def arg_correspondence(ctx, op_args, shape, P, expect, case, rng, skip=None):
+    """the full call with its glue (np.atleast_2d, vertex-index round trip): a (3,) argument and a small (N,3)
+    argument, model (`in3.arg`) vs implementation, on judged points."""
+    cand = [int(i) for i in np.nonzero(expect >= 0)[0] if skip is None or not skip(int(i))]
+    if not cand:
+        return
+    i = int(rng.choice(cand))
+    sub = [int(x) for x in rng.choice(cand, size=min(len(cand), 5), replace=False)]
+    for flag, pts, arg in ((0, [i], P[i]), (1, sub, P[sub])):
+        r, err = call_is_inside(shape, arg)
+        try:
+            m = ctx.driver.F("in3.arg", *op_args, I(flag), (P[i] if flag == 0 else L(list(P[sub]))))
+            mk = None
+        except ModelRaise as e:
+            m, mk = None, e.kind
+        ctx.count("arg:" + ("row" if flag == 0 else "rows"))
+        if (mk is None) != (err is None):
+            ctx.disagree("in3.arg:raise", slim(case, pts), [mk, err])
+        elif m is not None and (len(m) != len(r) or [bool(x) for x in m] != [bool(x) for x in r]):
+            ctx.disagree("in3.arg", slim(case, pts), [flag, [bool(x) for x in m], r.tolist()])
+
 # --------------------------------------------------------------------------- evaluation: convex family
 
 
@@ -461,6 +604,26 @@ def eval_convex(ctx, case):
         ctx.count("expect:" + {1: "inside", 0: "outside", -1: "not-judged"}[int(e)])
     eqs = _f(cp._equations)
     contract_planes(ctx, "Qhull(ConvexPolyhedron)", eqs, v, size)
+    # ---------------- theorem hypotheses on the implementation's own data (exact, Q)
+    if sorted(map(tuple, _f(cp.vertices).tolist())) != sorted(map(tuple, v.tolist())):
+        ctx.fail("ConvexPolyhedron.vertices:changed", "the stored vertices are not the input vertices (as a set)",
+                 slim(case, []), None)
+    cert_ok, eta, Rbox, o_cert = facet_certificate(ctx, cp, P, size, case)
+    if eta > 1e-9 * size:
+        ctx.contract_failures.append({"contract": "exact eta (max plane value over vertices) <= 1e-9 size", "got": eta})
+    if cert_ok:
+        # theorem: {max dist < -m} (in the box) is inside conv(vertices) is inside {max dist <= eta}
+        dist_impl = (P @ eqs[:, :3].T + eqs[:, 3]).max(axis=1)
+        mm = MARGIN * size
+        thm_in = (dist_impl < -1.001 * mm) & (np.max(np.abs(P - o_cert), axis=1) <= Rbox)
+        thm_out = dist_impl > eta + 1e-3 * mm
+        bad = np.nonzero((thm_in & (expect == 0)) | (thm_out & (expect == 1)))[0]
+        ctx.count("cert:facets:points-decided", int(np.sum(thm_in | thm_out)))
+        if len(bad):
+            i = int(bad[0])
+            ctx.fail("ConvexPolyhedron.is_inside:facet-theorem-vs-independent-hull",
+                     "the solid certified from the implementation's own planes/faces (facetCert theorem) differs from the "
+                     "independently computed hull of the input vertices", slim(case, [i]), [i, labels[i], float(dist_impl[i])])
 
     # ---------------- ConvexPolyhedron
     res, err = call_is_inside(cp, P)
@@ -477,6 +640,7 @@ def eval_convex(ctx, case):
         mism = np.nonzero((np.array(m) != res) & ~nearb)[0]
         if len(mism):
             ctx.disagree("in3.cp", slim(case, [int(mism[0])]), [int(mism[0]), bool(res[mism[0]])])
+        arg_correspondence(ctx, [I(0), L([e for e in eqs])], cp, P, expect, case, rng)
 
     # ---------------- Polyhedron (winding number) on the same mesh
     res, err = call_is_inside(ph, P)
@@ -489,6 +653,11 @@ def eval_convex(ctx, case):
         check_batching(ctx, "Polyhedron", ph, P, res, case, rng, expect >= 0)
         tris = np.array(list(ph._surface_triangulation()), dtype=float)
         poly_correspondence(ctx, tris, P, res, case, size, smax)
+        arg_correspondence(ctx, [I(1), L(list(_f(ph.vertices))), L(list(tris))], ph, P, expect, case, rng,
+                           skip=lambda i: tie_or_near(tris, P[i], size, smax[i]))
+        if len(tris) <= 400:
+            ray_certificate(ctx, "Polyhedron.is_inside", tris, P, res, expect, smax, size, case, labels, rng,
+                            convex_apex=interior_apex(rng, o_cert, eqs) if rng.random() < 0.5 else None)
 
     # ---------------- ConvexSpheropolyhedron
     eval_sphero(ctx, case, sp, cp, v, hull, smax, P, labels, size, r, rng)
@@ -672,6 +841,9 @@ def eval_solid(ctx, case):
     check_batching(ctx, "Polyhedron", ph, P, res, case, rng, expect >= 0)
     tris = np.array(list(ph._surface_triangulation()), dtype=float)
     poly_correspondence(ctx, tris, P, res, case, size, bdist * pl["s"])
+    arg_correspondence(ctx, [I(1), L(list(_f(ph.vertices))), L(list(tris))], ph, P, expect, case, rng,
+                       skip=lambda i: tie_or_near(tris, P[i], size, bdist[i] * pl["s"]))
+    ray_certificate(ctx, "Polyhedron.is_inside", tris, P, res, expect, bdist * pl["s"], size, case, labels, rng)
 
 
 # --------------------------------------------------------------------------- evaluation: sphere / ellipsoid
@@ -716,6 +888,10 @@ def eval_curved(ctx, case):
     mism = np.nonzero((np.array(model) != res) & ~nearb)[0]
     if len(mism):
         ctx.disagree("in3." + cls.lower(), slim(case, [int(mism[0])]), [int(mism[0]), bool(res[mism[0]])])
+    if cls == "Sphere":
+        arg_correspondence(ctx, [I(2), r, cen], shape, P, expect, case, rng)
+    else:
+        arg_correspondence(ctx, [I(3), ax[0], ax[1], ax[2], cen], shape, P, expect, case, rng)
 
 
 def curved_points(rng, cen, ax, n):
